@@ -14,7 +14,7 @@ with open(V + "/seeded/INDEX.md", "w") as fo:
              "(`demo_test.go`, `README.md`) and `meta.json` (what it needs, how it was confirmed, which checks were run on it and their result).\n"
              "`valid` = on the current (repaired) tree the suite passes with the patch, the demonstration passes without it and fails with it; "
              "`invalid` = no longer so (the change relied on a defect repaired since, or the suite notices it).\n"
-             "Ids a/b: first round; c/d and e/f: later rounds on the repaired tree.\n\n| id | status | reported by (quick tier) | what |\n|---|---|---|---|\n")
+             "Ids a/b: first round; c/d, e/f, g/h, i/j, k/l: later rounds on the repaired tree.\n\n| id | status | reported by (quick tier) | what |\n|---|---|---|---|\n")
     for r in rows:
         fo.write("| %s | %s | %s | %s |\n" % (r[0], r[2], r[3], r[4].replace("|", "/")))
     v = [r for r in rows if r[2] == "valid"]
